@@ -278,6 +278,82 @@ pub fn c07_frontends(ctx: &mut Ctx, acc: &mut Acc) {
         .reduce(Acc::new, Acc::merge);
     let merged = Acc::merge(std::mem::take(acc), mcp_acc);
     *acc = merged;
+    // "computed from the full history": ledgers whose later years carry a repurchase on the last day of the 30-day
+    // window and a capital return more than a year after the disposal; the one-year report (CLI --year, MCP year) and
+    // explain_matching must show the disposal exactly as the all-years report does
+    let later: Vec<NaiveDate> = (2016..=2025).flat_map(|y| [alpha::date(y, 4, 5), alpha::date(y, 4, 6), alpha::date(y, 9, 1)]).collect();
+    let ctxr: &Ctx = ctx;
+    let part = later
+        .par_iter()
+        .fold(Acc::new, |mut acc, d| {
+            let led = dsl_text(&[
+                alpha::buy(*d - CDuration::days(400), "X", "100", "10", "1"),
+                alpha::sell(*d, "X", "60", "12", "0.5"),
+                alpha::buy(*d + CDuration::days(30), "X", "40", "11", "1"),
+                alpha::capret(*d + CDuration::days(420), "X", "80", "200", "0"),
+                alpha::sell(*d + CDuration::days(500), "X", "10", "13", "0"),
+            ]);
+            let ds = d.format("%Y-%m-%d").to_string();
+            let ty = tax_year_of(*d);
+            let sc = Scratch::new();
+            sc.all_years_config();
+            sc.write("in.cgt", led.as_bytes());
+            let all = run_tool(&["report", "in.cgt", "--format", "json"], &sc, T);
+            let one = run_tool(&["report", "in.cgt", "--format", "json", "--year", &ty.to_string()], &sc, T);
+            let mut m = Mcp::start(&sc);
+            m.send_raw(&tool_call(&json!(1), "explain_matching", json!({"transactions": led, "disposal_date": ds, "ticker": "X"})));
+            m.send_raw(&tool_call(&json!(2), "calculate_report", json!({"transactions": led, "year": ty})));
+            let ok = m.wait_for(&["1".to_string(), "2".to_string()], Duration::from_secs(15));
+            acc.states += 1;
+            acc.validated += 1;
+            acc.bump("full-history ledgers");
+            let input = json!({"ledger": led, "disposal_date": ds});
+            let find = |text: &str| -> Option<Value> {
+                let v: Value = serde_json::from_str(text).ok()?;
+                for y in v["tax_years"].as_array()? {
+                    for dd in y["disposals"].as_array()? {
+                        if dd["date"].as_str() == Some(ds.as_str()) {
+                            return Some(dd.clone());
+                        }
+                    }
+                }
+                None
+            };
+            let Some(want) = (if all.ok() { find(&all.out()) } else { None }) else {
+                acc.violation(&ctxr.findings, "C07", viol("cli-failure", input, format!("the all-years report does not list the disposal: {}", all.err().chars().take(200).collect::<String>()), Value::Null));
+                return acc;
+            };
+            let legs = |v: &Value| -> Vec<(String, String, String, String)> {
+                // money to pence (explain_matching prints full precision, the reports pence; C17 owns the dress)
+                let pence = |x: &Value| -> String {
+                    use std::str::FromStr;
+                    x.as_str().and_then(|t| rust_decimal::Decimal::from_str(t).ok()).map(|d| d.round_dp_with_strategy(2, rust_decimal::RoundingStrategy::MidpointAwayFromZero).normalize().to_string()).unwrap_or_else(|| "?".to_string())
+                };
+                v["matches"].as_array().cloned().unwrap_or_default().iter().map(|l| (pence(&l["quantity"]), pence(&l["allowable_cost"]), pence(&l["gain_or_loss"]), l["acquisition_date"].as_str().unwrap_or("").to_string())).collect()
+            };
+            let mut sources: Vec<(&str, Option<Value>)> = vec![("cgt-tool report --year", if one.ok() { find(&one.out()) } else { None })];
+            if ok {
+                sources.push(("MCP calculate_report with year", tool_text(&m.got["2"][0]).ok().and_then(|t| find(&t))));
+                sources.push(("MCP explain_matching", tool_text(&m.got["1"][0]).ok().and_then(|t| serde_json::from_str::<Value>(&t).ok())));
+            } else {
+                acc.violation(&ctxr.findings, "C07", viol("mcp-no-response", input.clone(), "no response within 15 s".into(), Value::Null));
+            }
+            for (name, got) in sources {
+                match got {
+                    None => acc.violation(&ctxr.findings, "C07", viol("slice-differs", input.clone(), format!("{name} does not show the disposal of {ds} that the all-years report lists"), Value::Null)),
+                    Some(g) => {
+                        if legs(&g) != legs(&want) {
+                            acc.violation(&ctxr.findings, "C07", viol("slice-differs", input.clone(), format!("{name} shows legs (quantity, cost, gain, acquisition) {:?}, the all-years report {:?}", legs(&g), legs(&want)), Value::Null));
+                        }
+                    }
+                }
+            }
+            let _ = m.finish();
+            acc
+        })
+        .reduce(Acc::new, Acc::merge);
+    let merged = Acc::merge(std::mem::take(acc), part);
+    *acc = merged;
     ctx.require(acc.get("cli:placed") > 0 && acc.get("mcp:explained") > 0, "front-end sweeps produced no positive case");
     ctx.alphabets.push(json!({"name": "frontends", "description": "cgt-tool report --year (own year and neighbouring year) for 5 and 6 April of every year 1900..2101; MCP calculate_report + explain_matching for the same dates and every day 2023-04-01..2024-04-10", "dates": dates.len()}));
 }
